@@ -9,6 +9,21 @@ BASELINE = ("cd /repo && env -u PYCRAFT_VERIF /venv/bin/python -m pytest -ra -q 
             "--timeout=900 --continue-on-collection-errors")
 
 CHECKS = {
+    'C09': dict(
+        technique='TLA+ model of construction / negotiation / status queries (SessionNegotiate.tla) explored exhaustively; every '
+                  'scenario instantiated with concrete protocol maps and replayed into a real Connection against the scripted '
+                  'peer (S->I)',
+        text='SessionNegotiate.tla enumerates 11 allowed-version sets (incl. unsupported and unknown members) x 6 initial versions '
+             'x 9 server replies (each supported version, known-unsupported, unknown number, version object without protocol, no '
+             'version object, empty object, close without reply) for connect() and additionally the 9 handler-mode pairs for '
+             'status(), and checks NeverLoginWithDisallowed, ExactlyServersVersion, FallbackOnlyWhenNoVersion, '
+             'AtMostTwoTcpConnections, SingletonSkipsStatus, ExitOnceAfterStatus. Every scenario is run against the real code with '
+             'versions given as names or numbers over four protocol maps (incl. 2^30-flagged numbers, first and last supported); the '
+             'frames the peer decoded on each TCP connection, the connection count, the surfaced exception (class, server_protocol, '
+             'wording supported/allowed), handler calls, latency sign, close and exit callback are compared with the model.',
+        note='Trusted: TLC, virtual socket layer, peer codec. The status-phase handshake may carry any allowed version (contract); the '
+             'model says the latest. Default handlers are observed through captured stdout.',
+        design='5/C09'),
     'C10': dict(
         technique='TLA+ model of the login reactor (SessionLogin.tla) explored exhaustively over all admissible server scripts; '
                   'every behaviour replayed into a real Connection against an independent peer that decrypts (own CFB8, RSA private '
